@@ -46,7 +46,7 @@ def cases(draw):
         st.tuples(st.just("delete"), which, st.just(""), st.just(0), st.just(0)),
         st.tuples(st.just("dup"), which, st.just(""), st.integers(0, 4), st.just(0)),
     ).map(list)
-    case = {"hsalt": draw(st.integers(0, 15)), "threads": draw(st.sampled_from(["sync", "async"])), "fmt": draw(st.sampled_from(["sdmf", "mdmf"])), "k": k, "n": n, "seg": seg, "versions": draw(st.lists(st.integers(0, 5 * seg), min_size=1, max_size=3)),
+    case = {"hsalt": draw(st.integers(0, 15)), "threads": draw(st.sampled_from(["sync", "async", "held"])), "fmt": draw(st.sampled_from(["sdmf", "mdmf"])), "k": k, "n": n, "seg": seg, "versions": draw(st.lists(st.integers(0, 5 * seg), min_size=1, max_size=3)),
             "damage": draw(st.lists(dmg, min_size=1, max_size=4)), "sched": draw(st.lists(st.integers(0, 9), max_size=40))}
     if draw(st.integers(0, 5)) == 0:
         # colluding servers: one sacrificial share whose share hash chain lists forged leaf hashes followed by a hash number that is not in the tree,
@@ -140,7 +140,7 @@ def pick(which, shares):
 
 def run_case(case, ctx):
     from vf import boot as _boot
-    _boot.set_thread_mode(case.get("threads") == "async")      # defer_to_thread answered in a later reactor turn (as in production) or synchronously
+    _boot.set_thread_mode(case.get("threads") or "sync")      # defer_to_thread answered in a later reactor turn (as in production) or synchronously
     k, n, seg, fmt = case["k"], case["n"], case["seg"], case["fmt"]
     mutfile.set_segsize(seg)
     g = Grid(ctx.casedir(), n, {"k": k, "n": n, "happy": 1, "max_segment_size": 131072})
